@@ -59,10 +59,10 @@ def race(workers, seconds=1.2, rounds=4000, switch=1e-6):
         for t in ths:
             t.start()
         for t in ths:
-            t.join(seconds + 20)
+            t.join(seconds + 45)
         for (label, _fn), t in zip(live, ths):
             if t.is_alive() and label not in bad:
-                bad[label] = ("did not finish: blocked for more than 20 s after its time was up (another thread "
+                bad[label] = ("did not finish: blocked for more than 45 s after its time was up (another thread "
                               "went through an error path just before)")
     finally:
         sys.setswitchinterval(old)
